@@ -1051,22 +1051,30 @@ func c16Cap(c *Ctx, v *vocab, conn *FuncInfo) {
 	in := c.traces(conn)
 	h := &Interp{P: c.P, Info: conn.Pkg.TypesInfo}
 	for _, tok := range []*types.Var{v.fDequeueTokens, v.fPublishTokens, v.fSubscribeTokens} {
-		var capF types.Object
+		var capF, capRaw types.Object
 		okMake, okFill := false, false
 		for _, t := range in.Traces {
 			for i, e := range t.Ev {
-				if e.Kind == EvAssign && e.LObj == tok {
-					if call, isC := ast.Unparen(e.RHS).(*ast.CallExpr); isC && len(call.Args) == 2 {
-						if id, isI := call.Fun.(*ast.Ident); isI && id.Name == "make" {
-							capF = h.objOf(call.Args[1])
-							okMake = capF != nil
+				var fills []int
+				if e.Kind == EvAssign && e.LObj == tok && e.Made != nil && e.Made.SizeObj != nil {
+					// the channel may be made (and filled) by a helper that is interpreted in place: the size is the
+					// object the helper's parameter stands for on this path
+					capF, capRaw = e.Made.SizeObj, e.Made.SizeRaw
+					okMake = true
+					for j, f := range t.Ev[:i] {
+						if sendOn(tok)(f) {
+							fills = append(fills, j)
 						}
 					}
 				}
 				if sendOn(tok)(e) && capF != nil {
+					fills = append(fills, i)
+				}
+				for _, i := range fills {
+					e := t.Ev[i]
 					for _, l := range t.loopsAt(i) {
 						if fs, isF := l.(*ast.ForStmt); isF && fs.Cond != nil {
-							if b, isB := ast.Unparen(fs.Cond).(*ast.BinaryExpr); isB && h.objOf(b.Y) == capF && b.Op.String() == "<" {
+							if b, isB := ast.Unparen(fs.Cond).(*ast.BinaryExpr); isB && (h.objOf(b.Y) == capF || h.objOf(b.Y) == capRaw) && b.Op.String() == "<" {
 								// counter starts at 0 and is incremented by one
 								if as, isA := fs.Init.(*ast.AssignStmt); isA && len(as.Rhs) == 1 {
 									if tv, ok := conn.Pkg.TypesInfo.Types[as.Rhs[0]]; ok && tv.Value != nil && tv.Value.String() == "0" {
@@ -1750,11 +1758,11 @@ func c07ReqTokens(c *Ctx, v *vocab, prop string) {
 			seenT, seenG := map[ast.Node]bool{}, map[ast.Node]bool{}
 			for _, t := range in.Traces {
 				for i, e := range t.Ev {
-					if e.Kind == EvRecv && chanOnPath(h, t, i, e.Chan) == types.Object(sp.f) && !seenT[e.Node] {
+					if e.Kind == EvRecv && (chanOnPath(h, t, i, e.Chan) == types.Object(sp.f) || e.ChanObj == types.Object(sp.f)) && !seenT[e.Node] {
 						seenT[e.Node] = true
 						takes++
 					}
-					if e.Kind == EvSend && chanOnPath(h, t, i, e.Chan) == types.Object(sp.f) && !seenG[e.Node] {
+					if e.Kind == EvSend && (chanOnPath(h, t, i, e.Chan) == types.Object(sp.f) || e.ChanObj == types.Object(sp.f)) && !seenG[e.Node] {
 						seenG[e.Node] = true
 						gives++
 					}
@@ -1893,7 +1901,7 @@ func c16AckReturn(c *Ctx, v *vocab, r *Rule, ackH, compH *FuncInfo) {
 // made with the sum of the two size expressions the token channels are made with, and none of the operands is
 // written between the first and the last of the three makes (the defaults are applied before all of them).
 func c14AckCap(c *Ctx, v *vocab, prop string) {
-	r := c.Rule(prop+"/ACKCAP", "TRACE", "connect handler: ackQueue is made with capacity publishTokens-size + subscribeTokens-size, and the size operands are not written between the three makes: a queued acknowledgement never waits for room (ack runs under the backend's global mutex)", 1)
+	r := c.Rule(prop+"/ACKCAP", "TRACE", "connect handler: ackQueue is made with capacity publishTokens-size + subscribeTokens-size, and neither size operand is written between the make of its token channel and the make of the queue: a queued acknowledgement never waits for room (ack runs under the backend's global mutex)", 1)
 	fi := c.connectHandler(r)
 	if fi == nil {
 		return
@@ -1914,19 +1922,15 @@ func c14AckCap(c *Ctx, v *vocab, prop string) {
 			ok, why, wit = false, msg, t
 		}
 	}
-	sizeOf := func(e *Event) ast.Expr {
-		call, isC := ast.Unparen(e.RHS).(*ast.CallExpr)
-		if !isC || len(call.Args) != 2 {
+	sizeOf := func(e *Event) *MadeInfo {
+		if e.Made == nil || len(e.Made.Call.Args) != 2 {
 			return nil
 		}
-		if id, isI := ast.Unparen(call.Fun).(*ast.Ident); !isI || id.Name != "make" {
-			return nil
-		}
-		return ast.Unparen(call.Args[1])
+		return e.Made
 	}
 	for _, t := range in.Traces {
 		pos := map[*types.Var]int{}
-		size := map[*types.Var]ast.Expr{}
+		size := map[*types.Var]*MadeInfo{}
 		for i, e := range t.Ev {
 			if e.Kind != EvAssign {
 				continue
@@ -1949,29 +1953,30 @@ func c14AckCap(c *Ctx, v *vocab, prop string) {
 			continue
 		}
 		n++
-		sum, isSum := size[ackQ].(*ast.BinaryExpr)
-		a, b := h.objOf(size[pubT]), h.objOf(size[subT])
+		sum, isSum := ast.Unparen(size[ackQ].Call.Args[1]).(*ast.BinaryExpr)
+		a, b := size[pubT].SizeObj, size[subT].SizeObj
 		if !isSum || sum.Op != token.ADD || a == nil || b == nil {
 			fail(t, "the capacity of ackQueue is not the sum of the two token counts")
 			continue
 		}
 		x, y := h.objOf(sum.X), h.objOf(sum.Y)
 		if !((x == a && y == b) || (x == b && y == a)) {
-			fail(t, "the capacity of ackQueue is "+c.P.exprStr(size[ackQ])+", the tokens handed out are "+c.P.exprStr(size[pubT])+" and "+c.P.exprStr(size[subT]))
+			fail(t, "the capacity of ackQueue is "+c.P.exprStr(sum)+", the tokens handed out are "+a.Name()+" and "+b.Name())
 			continue
 		}
-		lo, hi := len(t.Ev), -1
-		for _, p := range pos {
-			if p < lo {
-				lo = p
+		// an operand must keep its value between the make of its own token channel and the make of the queue
+		for _, pr := range []struct {
+			ch *types.Var
+			op types.Object
+		}{{pubT, a}, {subT, b}} {
+			lo, hi := pos[pr.ch], pos[ackQ]
+			if lo > hi {
+				lo, hi = hi, lo
 			}
-			if p > hi {
-				hi = p
-			}
-		}
-		for _, e := range t.Ev[lo:hi] {
-			if e.Kind == EvAssign && (e.LObj == a || e.LObj == b) {
-				fail(t, "the token count "+e.LObj.Name()+" is written between the creation of the acknowledgement queue and of the token channels: their sizes disagree")
+			for _, e := range t.Ev[lo:hi] {
+				if e.Kind == EvAssign && e.LObj == pr.op {
+					fail(t, "the token count "+pr.op.Name()+" is written between the creation of "+pr.ch.Name()+" and of the acknowledgement queue: their sizes disagree")
+				}
 			}
 		}
 	}
